@@ -171,7 +171,7 @@ fn row_states() -> Vec<(String, Snap)> {
     v
 }
 
-/// the three spellings of a flag subset
+/// the five spellings of a flag subset
 fn spellings(letters: &str) -> Vec<Vec<String>> {
     let one = vec!["-i".to_string(), letters.to_string()];
     let mut rep = vec![];
@@ -183,7 +183,12 @@ fn spellings(letters: &str) -> Vec<Vec<String>> {
         rep = one.clone();
     }
     let spaced = vec!["-i".to_string(), letters.chars().map(|c| format!("{c} ")).collect::<String>()];
-    vec![one, rep, spaced]
+    // every letter given twice (in one string, and as the whole string repeated): a group is requested or not,
+    // however often its letter occurs
+    let doubled = vec!["-i".to_string(), letters.chars().map(|c| format!("{c}{c}")).collect::<String>()];
+    let mut twice = one.clone();
+    twice.extend(one.clone());
+    vec![one, rep, spaced, doubled, twice]
 }
 
 fn subsets() -> Vec<String> {
@@ -374,6 +379,22 @@ fn run(ctx: &mut Ctx) {
             crate::shim::reset_epoch();
         }
     }
+    // the empty table: header and separator alone, no row and no blank line
+    job += 1;
+    if ctx.mine(job) {
+        for letters in subsets() {
+            let argv = vec!["squitterator".to_string(), "-o".to_string(), "".to_string(), "-i".to_string(), letters.clone()];
+            let args = Args::try_parse_from(&argv).expect("args");
+            let flags = DisplayFlags::from_arg_str(&args.display_info.concat());
+            let planes = Planes { aircrafts: crate::snap::restore(&[]) };
+            let ((), out) = crate::run::capture_stdout(|| planes.print(&args, &flags));
+            ctx.eval();
+            ctx.count("empty-table-printed");
+            if !out.is_empty() {
+                ctx.violation("C14/empty-table", &format!("-i {letters:?}"), || format!("-i {letters:?}: printing the empty table writes {:?} - one line per aircraft means no line at all", String::from_utf8_lossy(&out)), || json!({"letters": letters, "empty_table": true}));
+            }
+        }
+    }
     // an over-wide row next to an ordinary one: the ordinary row must be rendered as if it were alone
     job += 1;
     if ctx.mine(job) {
@@ -425,6 +446,18 @@ fn run(ctx: &mut Ctx) {
 
 fn replay(ctx: &mut Ctx, case: &Value) {
     let letters = case.get("letters").and_then(|x| x.as_str()).unwrap_or("").to_string();
+    if case.get("empty_table").is_some() {
+        let argv = vec!["squitterator".to_string(), "-o".to_string(), "".to_string(), "-i".to_string(), letters.clone()];
+        let args = Args::try_parse_from(&argv).expect("args");
+        let flags = DisplayFlags::from_arg_str(&args.display_info.concat());
+        let planes = Planes { aircrafts: crate::snap::restore(&[]) };
+        let ((), out) = crate::run::capture_stdout(|| planes.print(&args, &flags));
+        crate::run::say(&format!("printing the empty table under -i {letters:?} writes {:?}", String::from_utf8_lossy(&out)));
+        if !out.is_empty() {
+            ctx.violation("C14/empty-table", &letters, || "the empty table prints something".into(), || case.clone());
+        }
+        return;
+    }
     if let Some(sname) = case.get("pair").and_then(|x| x.as_str()) {
         for (n, ov) in overflow_states() {
             if n == sname {
